@@ -1,9 +1,11 @@
 /- Text-side (tokenizer / parser / formatter / validator / imports) operations of the driver. -/
 import Bebop.Text.Parser
 import Bebop.Text.Grammar
+import Bebop.Text.Format
 import Bebop.Text.Dump
 import Bebop.Text.Validate
 import Bebop.Text.Imports
+import Bebop.Text.Cli
 import Driver.Gen
 
 open Bebop.Text
@@ -46,12 +48,58 @@ partial def parseFS : Nat → List String → Option (FS × List String)
     pure ({ pkg := p, imports := ts } :: rest, r')
   | _, _ => none
 
+/-- Outcome schedule for a scenario: walk the executed (non-deferred, non-benign) calls in order and fail or
+    crash the first one the fault hits. -/
+def cliSched (prog : List Bebop.Cli.Step) (hit : Bebop.Cli.Step → Bool) (o : Bebop.Cli.Outcome) : List Bebop.Cli.Outcome :=
+  let run := prog.filter (fun s => !(s.deferred || s.act == .benign))
+  match run.findIdx? hit with
+  | some i => List.replicate i .ok ++ [o]
+  | none => []
+
+def cliOp (tool inKind fault : String) (had : Bool) : String :=
+  open Bebop.Cli in
+  let prog := if tool == "bebopc-go" then bebopc else bebopfmt
+  let data : Bytes := (List.range 600).map (fun i => UInt8.ofNat (i % 251))
+  let fs0 : Bebop.Cli.FS := { target := if had then some [170] else none, tmp := none }
+  -- the earliest failing call decides: faults of the environment and defects of the input, in call order
+  let hits : List ((Bebop.Cli.Step → Bool) × Bebop.Cli.Outcome) :=
+    (if fault == "missing-input" then [((fun (s : Step) => s.name == "os.Open"), Outcome.fail 0)] else []) ++
+    (if inKind == "unparsable" then [((fun (s : Step) => s.name == "bebop.ReadFile"), Outcome.fail 0)] else []) ++
+    (if inKind == "validation" then [((fun (s : Step) => s.name == "schema.Generate"), Outcome.fail 0)] else []) ++
+    (if fault == "target-dir-missing" then [((fun (s : Step) => s.act == .createTemp || s.act == .createTarget), Outcome.fail 0)] else []) ++
+    (if fault == "target-is-dir" then [((fun (s : Step) => s.act == .rename || s.act == .createTarget), Outcome.fail 0)] else []) ++
+    (if fault == "write-enospc" || fault == "write-eio" then [((fun (s : Step) => s.act == .writeTemp || s.act == .writeTarget), Outcome.fail 0)] else []) ++
+    (if fault == "fsize-limit" then [((fun (s : Step) => s.act == .writeTemp || s.act == .writeTarget), Outcome.fail 512)] else []) ++
+    (if fault == "fsize-kill" then [((fun (s : Step) => s.act == .writeTemp || s.act == .writeTarget), Outcome.crash 512)] else []) ++
+    (if fault == "write-kill" then [((fun (s : Step) => s.act == .writeTemp || s.act == .writeTarget), Outcome.crash 0)] else [])
+  let scheds := hits.map (fun (h, o) => cliSched prog h o) |>.filter (fun l => !l.isEmpty)
+  -- the shortest non-empty schedule is the first failure in program order
+  let sched := scheds.foldl (fun best l => if best.isEmpty || l.length < best.length then l else best) []
+  let r := exec data prog sched fs0 false
+  let ex := match r.exit with | .zero => "zero" | .reported => "reported" | .crashed => "crashed"
+  let tg :=
+    if r.fs.target == fs0.target then "same"
+    else match r.fs.target with
+      | none => "absent"
+      | some [] => "empty"
+      | some b => if b == data then "new" else "partial"
+  ex ++ " " ++ tg ++ (if SafeProg prog then " shape-ok" else " shape-bad")
+
 def step (toks : List String) : String :=
   match toks with
+  | ["cli", tool, inKind, fault, had] => cliOp tool inKind fault (had == "1")
   | ["parse", h, io] =>
     match unhex h with
     | some bs => showRead (readFile bs (io == "1"))
     | none => "bad-op parse"
+  | ["fmt", h] =>
+    match unhex h with
+    | some bs =>
+      if !bs.all (fun b => b < 128) then "declined" else
+      match format bs with
+      | some out => "ok " ++ hexStr out
+      | none => "fuel"
+    | none => "bad-op fmt"
   | ["tok", h, io] =>
     match unhex h with
     | some bs =>
